@@ -161,13 +161,13 @@ def _children(points, ov, last_pos, d, rng):
             yield nov, pos
 
 
-def explore_subtree(run, stats, ov, last_pos, d, rng=None):
-    """Depth-first enumeration below one node; ``run(ch, stats)`` executes one leaf."""
+def explore_subtree(run, stats, ov, last_pos, d, rng=None, args=()):
+    """Depth-first enumeration below one node; ``run(ch, stats, *args)`` executes one leaf."""
     stack = [(ov, last_pos)]
     while stack:
         ov, last_pos = stack.pop()
         ch = Ch(ov)
-        run(ch, stats)
+        run(ch, stats, *args)
         ch.check_used()
         stats.count('executions')
         stats.count('states')                  # one node of the choice tree per override set
@@ -237,22 +237,22 @@ def seeded_rng(seed, salt=''):
     return random.Random('%s/%s' % (seed, salt))
 
 
-def _explore_task(run_name, module_name, ov, pos, d, seed):
+def _explore_task(run_name, module_name, ov, pos, d, seed, args):
     mod = sys.modules.get(module_name) or __import__(module_name, fromlist=['x'])
     run = getattr(mod, run_name)
     st = Stats()
-    explore_subtree(run, st, ov, pos, d, seeded_rng(seed, repr(sorted(ov.items()))))
+    explore_subtree(run, st, ov, pos, d, seeded_rng(seed, repr(sorted(ov.items()))), args)
     return st
 
 
-def explore(module_name, run_name, d, seed=0, jobs=None, stats=None):
+def explore(module_name, run_name, d, seed=0, jobs=None, stats=None, args=()):
     """Explore all override sets with <= d deviations of harness ``module.run_name(ch, stats)``.
     The root is run here; each first deviation is a shard for the pool."""
     mod = sys.modules.get(module_name) or __import__(module_name, fromlist=['x'])
     run = getattr(mod, run_name)
     stats = stats if stats is not None else Stats()
     ch = Ch({})
-    run(ch, stats)
+    run(ch, stats, *args)
     stats.count('executions')
     stats.count('states')
     stats.count('choice_points', len(ch.points))
@@ -261,9 +261,9 @@ def explore(module_name, run_name, d, seed=0, jobs=None, stats=None):
     tasks = []
     for nov, pos in _children(ch.points, {}, -1, d, rng):
         stats.count('transitions')
-        tasks.append((run_name, module_name, nov, pos, d, seed))
+        tasks.append((run_name, module_name, nov, pos, d, seed, args))
     rng.shuffle(tasks)
-    for st in pmap(_explore_task, tasks, jobs, chunksize=max(1, len(tasks) // (64 * (jobs or default_jobs())) or 1)):
+    for st in pmap(_explore_task, tasks, jobs, chunksize=max(1, len(tasks) // (16 * (jobs or default_jobs())))):
         stats.merge(st)
     return stats
 
